@@ -353,7 +353,11 @@ Proof. vm_compute. repeat split. Qed.
    3. a zero divisor is an error for both;
    4. the int/float mixes convert the int with finiteFloat first (nearest even by
       int_to_float_nearest_even; error exactly from the overflow threshold on; a
-      zero int divisor is an error) and then behave as 1-3. *)
+      zero int divisor is an error) and then behave as 1-3.
+   Tie to /repo: the harness observations of int // float, float // int, int % float,
+   float % int (both representations) are evaluated on every run against
+   ModelFloatDiv (CasesFloatDiv.model_ok_fd) and against an independent
+   rational nearest-even oracle (CasesFloatDiv.spec_ok_fd). *)
 Theorem float_floor_div_mod :
   (forall x y X Y, valid_float x = true -> valid_float y = true ->
      scaled_val x = Some X -> scaled_val y = Some Y -> Y <> 0 ->
